@@ -6,7 +6,7 @@ from fractions import Fraction
 
 from ..core import AnalysisError, anchor
 from .. import cfront, pyfront
-from ..cfront import walk, strip, render, line_of, is_assign, callee_name, call_args
+from ..cfront import walk, strip, render, line_of, is_assign, callee_name, call_args, qtype
 from . import e8, x1
 
 LEVEL = 'other'
@@ -490,46 +490,90 @@ def rule_com_variations(ctx):
         return sp.diff(e, ea, eb).subs({ea: 0, eb: 0})
 
     all_loops = R.loops(fn)
+    # index locals classified by the member of var_config they are read from (names are free)
+    idx_class = {}
+    for d in walk(cfront.body(fn)):
+        if d.get('kind') == 'VarDecl' and 'init' in d:
+            ini = [c_ for c_ in d.get('inner', []) if c_.get('kind') not in ('FullComment',)]
+            i0 = strip(ini[-1], casts=True) if ini else {}
+            if i0.get('kind') == 'MemberExpr' and 'reb_variational_configuration' in qtype(strip(i0['inner'][0])):
+                idx_class[d['name']] = {'index': 'own', 'index_1st_order_a': 'a', 'index_1st_order_b': 'b'}.get(i0['name'])
+    anchor({'own', 'a', 'b'} <= set(idx_class.values()), 'locals read from var_config[v].index / index_1st_order_a / index_1st_order_b in reb_simulation_move_to_com')
     # 1. no partial sums
     for f in all_loops:
         n += 1
         for name, line in R.partial_sum_reads(f):
             ctx.report('R20.7', 'move_to_com:partial:%s' % name, 'src/tools.c:%s reb_simulation_move_to_com' % line,
                        'the total %s is still being accumulated by this loop when it is used: the shift of the variational particles is computed from a partial sum' % name)
-    # 2. totals are reductions of the right member, 3. summands
+
+    def loop_var(f):
+        for d in walk(f['inner'][0] or {}):
+            if d.get('kind') == 'VarDecl':
+                return d['name']
+        return None
+
+    def operand_class(txt, lv):
+        """particles[(i+idx)].fld -> (class of idx or 'real', fld)"""
+        m_ = re.match(r'^(?:r\.)?particles\[\(?(\w+)(?:\+(\w+))?\)?\]\.(\w+)$', txt)
+        if not m_ or m_.group(1) != lv:
+            return None
+        if m_.group(2) is None:
+            return ('real', m_.group(3))
+        return (idx_class.get(m_.group(2)), m_.group(3))
+
+    # 2. totals: scalar accumulated from the mass member of one configuration
+    totals = {}            # scalar name -> class of the configuration it sums ('own', 'a', 'b'), per enclosing order
+    for f in all_loops:
+        lv = loop_var(f)
+        for lvn, op, rhs, ln in R.accumulations(f):
+            if not re.match(r'^[A-Za-z_]\w*$', lvn):
+                continue
+            oc = operand_class(render(rhs).replace(' ', ''), lv)
+            if oc is None:
+                continue
+            n += 1
+            if oc[1] != 'm' or op != '+=' or oc[0] is None:
+                ctx.report('R20.7', 'move_to_com:total:%s' % lvn, 'src/tools.c:%s reb_simulation_move_to_com' % ln,
+                           'the total %s is accumulated with %s %s; a mass total sums the .m member of one variational configuration' % (lvn, op, render(rhs)))
+            else:
+                totals.setdefault(lvn, set()).add(oc[0])
+    # 3. summands
     found = {1: 0, 2: 0}
     for f in all_loops:
         accs = R.accumulations(f)
-        targets = {lv.replace(' ', '') for lv, op, rhs, ln in accs}
-        if 'com_shift.x' not in targets:
-            # a loop computing totals?
-            for lv, op, rhs, ln in accs:
-                want = {'dm': 'particles[(i+index)].m', 'dma': 'particles[(i+index_1st_order_a)].m', 'dmb': 'particles[(i+index_1st_order_b)].m', 'ddm': 'particles[(i+index)].m'}
-                if lv in want:
-                    n += 1
-                    got = render(rhs).replace(' ', '')
-                    if got != want[lv] or op != '+=':
-                        ctx.report('R20.7', 'move_to_com:total:%s' % lv, 'src/tools.c:%s reb_simulation_move_to_com' % ln,
-                                   'the total %s is accumulated from %s %s, expected += %s (the mass variation of that configuration)' % (lv, op, got, want[lv]))
+        lv = loop_var(f)
+        shift = None
+        for lvn, op, rhs, ln in accs:
+            m_ = re.match(r'^(\w+)\.x$', lvn.replace(' ', ''))
+            if m_:
+                shift = m_.group(1)
+        if shift is None:
             continue
-        text = ' '.join(render(rhs) for lv, op, rhs, ln in accs)
-        order = 2 if 'index_1st_order_a' in text else 1
+        text = ' '.join(render(rhs) for lvn, op, rhs, ln in accs)
+        order = 2 if any(k_ in text for k_, c_ in idx_class.items() if c_ == 'a') else 1
         found[order] += 1
 
-        def leaf(pth, order=order):
-            t = {'com.m': M, 'particles[i].m': m, 'particles[i].x': x, 'particles[i].vx': v}
-            if order == 1:
-                t.update({'particles[(i+index)].m': S['dm'], 'particles[(i+index)].x': S['dx'], 'particles[(i+index)].vx': S['dv'], 'dm': S['DM']})
-            else:
-                t.update({'particles[(i+index)].m': S['abm'], 'particles[(i+index)].x': S['abx'], 'particles[(i+index)].vx': S['abv'],
-                          'particles[(i+index_1st_order_a)].m': S['am'], 'particles[(i+index_1st_order_a)].x': S['ax'], 'particles[(i+index_1st_order_a)].vx': S['av'],
-                          'particles[(i+index_1st_order_b)].m': S['bm'], 'particles[(i+index_1st_order_b)].x': S['bx'], 'particles[(i+index_1st_order_b)].vx': S['bv'],
-                          'dma': S['DMA'], 'dmb': S['DMB'], 'ddm': S['DDM']})
-            return t[pth]
+        def leaf(pth, order=order, lv=lv):
+            if pth == 'com.m':
+                return M
+            oc = operand_class(pth, lv)
+            if oc is not None:
+                cls, fld = oc
+                fl = {'m': 'm', 'x': 'x', 'vx': 'v'}.get(fld)
+                if fl is None or cls is None:
+                    raise KeyError(pth)
+                if cls == 'real':
+                    return {'m': m, 'x': x, 'v': v}[fl]
+                pre = {'own': 'd' if order == 1 else 'ab', 'a': 'a', 'b': 'b'}[cls]
+                return S[pre + fl]
+            if pth in totals and len(totals[pth]) == 1:
+                cls = next(iter(totals[pth]))
+                return S[{'own': 'DM' if order == 1 else 'DDM', 'a': 'DMA', 'b': 'DMB'}[cls]]
+            raise KeyError(pth)
         for comp, q, names in (('x', x, ('dx', 'ax', 'bx', 'abx')), ('vx', v, ('dv', 'av', 'bv', 'abv'))):
             n += 1
             try:
-                got, k = R.summand(f, 'com_shift.' + comp, leaf)
+                got, k = R.summand(f, shift + '.' + comp, leaf)
             except KeyError as ex:
                 raise AnalysisError('R20.7: unexpected operand in the order-%d loop of move_to_com: %s' % (order, ex))
             want = spec(order, q, S[names[0]], S[names[1]], S[names[2]], S[names[3]])
@@ -537,9 +581,9 @@ def rule_com_variations(ctx):
             where = 'src/tools.c:%s reb_simulation_move_to_com' % line_of(f)
             if res != 0:
                 ctx.report('R20.7', 'move_to_com:order%d:%s' % (order, comp), where,
-                           'the %d terms added to com_shift.%s per particle do not add up to the order-%d derivative of m*%s/M: difference %s' % (k, comp, order, comp, str(res)[:200]))
+                           'the %d terms added to %s.%s per particle do not add up to the order-%d derivative of m*%s/M: difference %s' % (k, shift, comp, order, comp, str(res)[:200]))
             else:
-                samples.append('%s: %d terms of com_shift.%s sum to the order-%d derivative of the centre of mass' % (where, k, comp, order))
+                samples.append('%s: %d terms of %s.%s sum to the order-%d derivative of the centre of mass' % (where, k, shift, comp, order))
     anchor(found[1] >= 1 and found[2] >= 1, 'first- and second-order shift loops in reb_simulation_move_to_com')
     ctx.covered('R20.7', 'move_to_com: totals come from completed loops over the right member; the summands of the first- and second-order shift equal the derivatives of the centre of mass (x and vx; y, z by R20.6)',
                 n, floor=12, samples=samples)
